@@ -464,7 +464,8 @@ class Frame(object):
         rhs = self.ev(node.value, st)
         if isinstance(node.op, ast.Add):
             v = self.add(cur, rhs)
-        elif isinstance(node.op, ast.BitOr) and isinstance(node.target, ast.Name):
+        elif isinstance(node.op, ast.BitOr) and isinstance(node.target, ast.Name) and \
+                not (isinstance(cur, Const) and isinstance(rhs, Const)):
             v = Sym('(%s | %s)' % (render(cur), render(rhs)))
             st.events.append(('ior', render(cur), render(rhs), node.lineno))
         else:
